@@ -472,9 +472,18 @@ def run(ck):
     if f:
         ng_calls = f.calls(r"low_level::MutableTrie::new_generation$")
         aggs = [(bi, st["rv"]) for bi in sorted(f.reachable()) for st in f.stmts(bi) if st.get("rv", {}).get("k") == "agg" and st["rv"].get("adt", "").endswith("api::MutableStateInner")]
+        # every handle the function returns was produced after a new generation was started on the shared trie (directly, or by
+        # the function calling itself once the inner trie exists): a handle returned without it - e.g. a clone of `self` for a
+        # state that had no inner trie yet - shares the caller's generation, and what is written through it is not rolled back
+        rec = f.calls(r"api::MutableState::make_fresh_generation$")
+        rets = [bi for bi in f.reachable() if f.term(bi)["k"] == "return"]
+        bypass = sorted(set(rets) & f.reach_from([0], avoid={bi for (bi, _) in ng_calls} | {bi for (bi, _) in rec}))
+        ck.ob("DOM", f.path, "every-returned-handle-follows-new_generation", bool(ng_calls) and not bypass,
+              "every return is reached through new_generation (or through the function's own call on the initialised state)" if ng_calls and not bypass else
+              "a return is reachable without starting a generation: the returned handle shares the caller's generation, its writes are visible to the caller after the inner call is abandoned", f.loc(bypass[0]) if bypass else f.loc())
         for (bi, rv) in aggs:
             if not any(f.dominates(nb, bi) for (nb, _) in ng_calls):
-                continue        # the first generation of a state that had no inner trie yet starts at the literal root
+                continue        # the handle stored into `self` for a state that had no inner trie yet is generation 0, the literal root
             i = rv["fields"].index("root") if "root" in rv.get("fields", []) else 0
             o = f.origins(rv["ops"][i], deep=True)
             ok = ("field", "root") in o and ("lit", 1) in o and any(a[0] == "bin" and a[1].startswith("Add") for a in o)
